@@ -1,5 +1,6 @@
 import M3d.Lemmas.CodecSafe
 import M3d.Lemmas.CodecPly
+import M3d.Lemmas.CodecListAlloc
 /-!
 # C16 — decoders reject malformed input with an error instead of crashing
 
@@ -132,6 +133,121 @@ theorem ply_alloc_linear (ft : FloatText) (bs : Bytes) :
 
 /-- Before the repair a list pre-allocated 16 bytes per *declared* entry: a 4-byte length of 2³²−1 is 64 GiB. -/
 example : listAllocUnrepaired (2 ^ 32 - 1) > 2 ^ 35 ∧ 16 * min (2 ^ 32 - 1) plyMaxPrealloc = 2 ^ 16 := by decide
+
+/-- Before repair 910e191 the header reader alone was quadratic: the valid 5 505-byte file of the corpus
+with a 5 447-byte header (60 comment lines) cost 14.8 MB of string copies against a bound of 1.4 MB; an
+87 KB header cost 3.8 GB.  (Found by the long-header files: sites `c16:plyg/over-allocation`, `c16:plyc/…`.) -/
+example : plyHeaderAllocUnrepaired 5447 > 64 * 5505 + 2 ^ 20 ∧ plyHeaderAllocUnrepaired 87000 > 3 * 2 ^ 30 ∧
+    2 * 5505 ≤ 64 * 5505 + 2 ^ 20 := by decide
+
+/-! ## allocation: the list loop at every growth step
+
+`decodeInstance` makes `subValues` with capacity `min(declared, 4096)` and lets `append` grow it.  The
+declared length is untrusted, so what matters is that **no** request — not only the first `make` — is sized
+by it.  `g` is Go's `append` (capacity requested when a full slice of that length is appended to); the
+theorems hold for every `g` with `g l ≤ 2·l + c` and `5·l ≤ 4·g l`, which the driver checks on the oracle
+table of the real `append` it is given (`policyOK`), and which `runtime.growslice`'s rule satisfies
+(`goNextCap`, example below).  The seeded change C16-3 (re-allocate with `cap = declared` once the
+pre-allocation is full) is the policy `growToDeclared`, which does not satisfy them. -/
+
+/-- **every growth step**: each capacity requested for a list property — whatever length the file
+declares — was requested after `l ≤ k` entries had really been read and is at most the bounded
+pre-allocation (`l = 0`: `min(declared, 4096)`) or `2·l + c`. -/
+theorem ply_list_request_bounded (g : Nat → Nat) (c : Nat) (hub : ∀ l, g l ≤ 2 * l + c) (declared k : Nat) :
+    ∀ r ∈ listRequests g declared k, r.1 ≤ k ∧ r.2 ≤ max (min declared plyMaxPrealloc) (2 * r.1 + c) :=
+  listRequests_mem g c hub declared k
+
+/-- **alloc_linear (one list, all generations of the slice)**: the slots requested for a list property
+of which `k` entries were read are at most `min(declared, 4096) + 10·k + 5·c`, for every declared length. -/
+theorem ply_list_alloc_linear (g : Nat → Nat) (c : Nat) (hub : ∀ l, g l ≤ 2 * l + c)
+    (hamort : ∀ l, 5 * l ≤ 4 * g l) (declared k : Nat) :
+    listSlots g declared k ≤ min declared plyMaxPrealloc + 10 * k + 5 * c :=
+  listSlots_linear g c hub hamort declared k
+
+/-- … in bytes of input, binary files: whatever `declared` says and wherever the input ends, the bytes
+requested for the list (16 per slot) are at most `16·4096 + 160·|input| + 80·c`; and every single request
+was preceded by `l · size` bytes of entries. -/
+theorem ply_list_alloc_linear_in_input (g : Nat → Nat) (c : Nat) (hub : ∀ l, g l ≤ 2 * l + c)
+    (hamort : ∀ l, 5 * l ≤ 4 * g l) (e : Endian) (kind : Kind) (declared : Nat) (bs : Bytes) :
+    16 * listSlots g declared (scalarsRead e kind declared bs) ≤ 16 * plyMaxPrealloc + 160 * bs.length + 80 * c ∧
+    ∀ r ∈ listRequests g declared (scalarsRead e kind declared bs),
+      r.1 * kind.size ≤ bs.length ∧ r.2 ≤ plyMaxPrealloc + 2 * bs.length + c := by
+  have hb := scalarsRead_bytes e kind declared bs
+  have hp := Kind.size_pos' kind
+  have hm : scalarsRead e kind declared bs ≤ scalarsRead e kind declared bs * kind.size :=
+    Nat.le_mul_of_pos_right _ hp
+  refine ⟨?_, ?_⟩
+  · have := listSlots_linear g c hub hamort declared (scalarsRead e kind declared bs)
+    have := listCap0_le declared
+    omega
+  · intro r hr
+    have h1 := listRequests_mem g c hub declared _ r hr
+    have h0 := listCap0_le declared
+    have h2 : r.1 * kind.size ≤ scalarsRead e kind declared bs * kind.size := Nat.mul_le_mul_right _ h1.1
+    have h3 : r.1 ≤ r.1 * kind.size := Nat.le_mul_of_pos_right _ hp
+    refine ⟨by omega, ?_⟩
+    have := h1.2
+    omega
+
+/-- `scalarsRead` is the number of entries the model's list loop consumed: all of them when it succeeds. -/
+theorem ply_list_read_all {e : Endian} {kind : Kind} {n : Nat} {bs r : Bytes} {xs : List Scalar}
+    (h : readScalarsBin e kind n bs = .ok (xs, r)) : scalarsRead e kind n bs = n :=
+  scalarsRead_of_ok h
+
+/-- ASCII rows: the entries read are tokens of the line, so the same bound holds in tokens. -/
+theorem ply_list_alloc_linear_tokens (g : Nat → Nat) (c : Nat) (hub : ∀ l, g l ≤ 2 * l + c)
+    (hamort : ∀ l, 5 * l ≤ 4 * g l) (ft : FloatText) (kind : Kind) (declared : Nat) (toks : List Bytes) :
+    listSlots g declared (tokensRead ft kind declared toks) ≤ plyMaxPrealloc + 10 * toks.length + 5 * c := by
+  have := listSlots_linear g c hub hamort declared (tokensRead ft kind declared toks)
+  have := tokensRead_le ft kind declared toks
+  have := listCap0_le declared
+  omega
+
+/-- **alloc_linear (a binary row, wherever it fails)**: all slots requested while `DecodeInstanceBinary`
+works on a row — decoded or not, any number of list properties, any declared lengths — are at most one
+bounded pre-allocation + 16 per input byte (`c ≤ 4096`). -/
+theorem ply_row_alloc_every_step (g : Nat → Nat) (c : Nat) (hc : c ≤ plyMaxPrealloc) (hub : ∀ l, g l ≤ 2 * l + c)
+    (hamort : ∀ l, 5 * l ≤ 4 * g l) (e : Endian) (ps : List PProp) (bs : Bytes) :
+    rowSlotsBin g e ps bs ≤ plyMaxPrealloc + 16 * bs.length :=
+  rowSlotsBin_le g c hc hub hamort e ps bs
+
+/-- **what the `plycap` correspondence rests on**: the driver is given the requests the REAL list loop
+made (observed between consecutive values through the hook `VerifDecodeInstance`) and answers `ok` exactly
+when they pass `requestsOK`; such requests total at most `min(declared, 4096) + 10·k + 5·c` slots — a
+request sized by the declared length does not pass. -/
+theorem ply_requests_spec_linear (c declared k : Nat) (T : List (Nat × Nat)) (h : requestsOK c declared k T = true) :
+    sumSlots T ≤ min declared plyMaxPrealloc + 10 * k + 5 * c :=
+  requestsOK_sum c declared k T h
+
+/-- … and the specification is the one the modelled loop meets, for every declared length and every
+number of entries present, under any growth policy with `l < g l ≤ 2·l + c`, `5·l ≤ 4·g l`. -/
+theorem ply_list_model_meets_spec (g : Nat → Nat) (c : Nat) (hlt : ∀ l, l < g l) (hub : ∀ l, g l ≤ 2 * l + c)
+    (hamort : ∀ l, 5 * l ≤ 4 * g l) (declared k : Nat) :
+    requestsOK c declared k (listRequests g declared k) = true :=
+  listRequests_requestsOK g c hlt hub hamort declared k
+
+/-- non-vacuity: Go's rule (`nextslicecap`: double below 256, then `l + (l+768)/4`) satisfies both hypotheses
+with `c = 512` … -/
+example : (∀ l, goNextCap l ≤ 2 * l + goAppendSlack) ∧ (∀ l, 5 * l ≤ 4 * goNextCap l) ∧ (∀ l, l < goNextCap l) := by
+  refine ⟨?_, ?_, ?_⟩ <;> intro l <;> unfold goNextCap <;> (try unfold goAppendSlack) <;> split <;> omega
+
+/-- … and the requests observed on this toolchain (list declared 6 000 000, 7681 entries present) pass the
+driver's check, as does a list that fits its pre-allocation; the seeded change's requests do not. -/
+example : requestsOK goAppendSlack 6000000 7681 [(0, 4096), (4096, 5632), (5632, 7680), (7680, 10240)] = true ∧
+    requestsOK goAppendSlack 5 3 [(0, 5)] = true ∧
+    requestsOK goAppendSlack 6000000 4097 [(0, 4096), (4096, 6000000)] = false ∧
+    requestsOK goAppendSlack 6000000 0 [(0, 6000000)] = false := by decide
+
+/-- The seeded change C16-3 is outside the policy: with `declared = 6 000 000` the request made when the
+4096-entry pre-allocation is full is `6 000 000 > 2·4096 + 512`; 4097 one-byte entries then cost
+more than 6 000 000 slots (96 MB), while under Go's rule they cost 4096 + 5312. -/
+example : ¬ (∀ l, growToDeclared 6000000 l ≤ 2 * l + goAppendSlack) := by
+  intro h
+  have := h 4096
+  simp [growToDeclared, goAppendSlack] at this
+
+example : listRequests (growToDeclared 6000000) 6000000 4097 = [(0, 4096), (4096, 6000000)] ∧
+    listRequests goNextCap 6000000 4097 = [(0, 4096), (4096, 5312)] := by decide +kernel
 
 /-! ## indices and errors -/
 
